@@ -659,7 +659,10 @@ class FnTranslator:
             if refmut: self.mut_params.append(pat[1])
         self.params_pre = params
         for mp in self.mut_params:
-            if env[mp][0] == "opaque": raise RsError("&mut parameter of an opaque type is outside the subset")
+            if env[mp][0] == "opaque" and not any(n.startswith(env[mp][1] + ".") and x.get("updates_receiver")
+                                                   for n, x in self.u.externals.items()):
+                # (b1819) admitted only when every way to change it is a declared receiver-updating external of that type
+                raise RsError("&mut parameter of an opaque type is outside the subset")
         self.ret = u.resolve(f["ret"], self.impl)
         self.is_result = self.ret[0] == "result"
         self.val_ty = self.ret[1] if self.is_result else self.ret
@@ -671,6 +674,10 @@ class FnTranslator:
         info = FnInfo()
         info.impl, info.name = self.impl, f["name"]
         info.lean_name = (self.impl + "." if self.impl else "") + lid(f["name"])
+        if self.impl and self.impl in u.fi.structs and f["name"] in [fl[0] for fl in u.fi.structs[self.impl]]:
+            # (b1819) a method named like a field of its own struct (`Channel::id`, `StreamedPSBT::psbt`): the generated
+            # structure's projection has that name, so the definition gets the suffix `_fn`
+            info.lean_name = self.impl + "." + f["name"] + "_fn"
         info.params, info.ret, info.val_ty = params, self.ret, self.val_ty
         info.is_result = self.is_result
         info.mut_self = self.selfk == "mut"
@@ -2825,6 +2832,34 @@ class FnTranslator:
     def mcall(self, e, env, pre, want):
         _, recv, m, turbo, args, line = e
         wr = getattr(self, "wr_of", {}).get(id(e), False)
+        if any(n.endswith("." + m) and x.get("updates_receiver") for n, x in self.u.externals.items()):
+            # (b1819) receiver-updating external in value position / under `?`: `let v = r.read_u32_be()?;`,
+            # `w.write_all(&b)?;` — the external returns the new receiver, or the pair (new receiver, value); a declared
+            # `Result` must be "monadic" and consumed by `?` (or the tail position)
+            try:
+                self.place_root(recv); _, bt0 = self.expr(recv, env, [], None)
+            except RsError:
+                bt0 = None
+            nm = "%s.%s" % (bt0[1], m) if bt0 is not None and bt0[0] in ("opaque", "struct") else None
+            if nm in self.u.externals and self.u.externals[nm].get("updates_receiver"):
+                term, t, kind = self.call_external(nm, [recv] + list(args), env, pre)
+                if kind == "comp":
+                    if not wr or not self.is_result:
+                        raise RsError("Result of the receiver-updating external %s used other than by `?`" % nm)
+                    v = self.fresh()
+                    pre.append(("bind", v, MCall(term))); term = v
+                elif t[0] in ("tryres", "extres"):
+                    raise RsError("receiver-updating external %s: a declared Result must be monadic" % nm)
+                k2 = "tried" if kind == "comp" else "val"
+                if t == bt0:
+                    self.place_set(recv, term, env, pre)
+                    return "()", UNIT, k2
+                if t[0] == "tuple" and len(t[1]) == 2 and t[1][0] == bt0:
+                    a, b = self.fresh("rcv"), self.fresh("val")
+                    pre.append(("let", "(%s, %s)" % (a, b), term))
+                    self.place_set(recv, a, env, pre)
+                    return b, t[1][1], k2
+                raise RsError("receiver-updating external %s must return the receiver type or (receiver, value)" % nm)
         if recv == ("path", ["self"]) and ("self." + m) in self.u.externals:
             return self.call_external("self." + m, args, env, pre)
         if recv == ("path", ["self"]) and self.impl and "%s.%s" % (self.impl, m) in self.u.externals and "self" in env:
